@@ -132,3 +132,8 @@ def run(ctx):
     ctx.ob(bool(none_e) and not any(x in seen_ for x in pat_.exits()), 'process_ack_timeouts returns only when no further record is due', 'fire|all-due|exit', loc=pat_.loc(), rule='R-C18-2')
     ctx.ob(bool(pop_) and guarded_any(pat_, pop_[0].bb, [r'^ProtocolState::get_next_ack_timeout\(self\) is Some$']) and show(fl_[0].arg(1)).endswith('@Some.0') if fl_ else False,
            'exactly the due record is popped and its operation failed with the ack-timeout error', 'fire|all-due|pop', loc=pat_.loc(), rule='R-C18-2')
+    # ---- added after the mutation sweep: the configured values this property starts from reach the options (builder setters)
+    from . import shared as _sh
+    _ns = _sh.builder_setters(ctx, lambda b, m: m == 'with_ack_timeout' or (b == 'MqttClientOptionsBuilder' and m == 'with_max_interrupted_retries'), 'R-C18-1', 'the ack timeout T and the retry limit N are the configured ones')
+    if ctx.config == 'all':
+        ctx.floor(_ns, 4, 'builder setters this property depends on')
